@@ -17,3 +17,15 @@ void h_remove(void)         { PROM *r; SCHED *s; cv_i8 *id; sch_remove(r, s, id)
 #ifdef CV_HAS_sch_schedule_U
 void h_schedule(void)       { SCHED *s; cv_i8 *id; PROM *p; cv_i64 tp; sch_schedule(s, id, p, tp); __CPROVER_assert(0, "SENTINEL reachable after schedule"); }
 #endif
+#ifdef CV_HAS_sch_cancel_e_U
+void h_cancel_e(void)       { SPB *r; SCHED *s; cv_i8 *id; EPTR *e; sch_cancel_e(r, s, id, e); __CPROVER_assert(0, "SENTINEL reachable after cancel(id, e)"); }
+#endif
+#ifdef CV_HAS_sch_cancel_U
+void h_cancel(void)         { SPB *r; SCHED *s; cv_i8 *id; sch_cancel(r, s, id); __CPROVER_assert(0, "SENTINEL reachable after cancel(id)"); }
+#endif
+#ifdef CV_HAS_sch_sleep_until_U
+void h_sleep_until(void)    { FUT *r; SCHED *s; cv_i64 tp; cv_i8 *id; sch_sleep_until(r, s, tp, id); __CPROVER_assert(0, "SENTINEL reachable after sleep_until"); }
+#endif
+#ifdef CV_HAS_sch_sleep_for_U
+void h_sleep_for(void)      { FUT *r; SCHED *s; cv_i64 d; cv_i8 *id; sch_sleep_for(r, s, d, id); __CPROVER_assert(0, "SENTINEL reachable after sleep_for"); }
+#endif
